@@ -177,28 +177,31 @@ func (rw *Rewriter) Visit(node sql.Node) (w sql.Visitor, n sql.Node, err error) 
 			if len(n.Args) == 0 {
 				// SQLite defines a missing time-value as 'now'.
 				n.Args = []sql.Expr{jd}
+				rw.modified = true
 			} else if isNow(n.Args[0]) {
 				n.Args[0] = jd
+				rw.modified = true
 			}
-			rw.modified = true
 		} else if rw.RewriteTime && len(n.Args) > 0 && !n.Star.IsValid() &&
 			strings.EqualFold(n.Name.Name, "strftime") {
 			if len(n.Args) == 1 {
 				// Format only: SQLite defines a missing time-value as 'now'.
 				n.Args = append(n.Args, jd)
+				rw.modified = true
 			} else if isNow(n.Args[1]) {
 				n.Args[1] = jd
+				rw.modified = true
 			}
-			rw.modified = true
 		} else if rw.RewriteTime && len(n.Args) > 1 &&
 			strings.EqualFold(n.Name.Name, "timediff") {
 			if isNow(n.Args[0]) {
 				n.Args[0] = jd
+				rw.modified = true
 			}
 			if isNow(n.Args[1]) {
 				n.Args[1] = jd
+				rw.modified = true
 			}
-			rw.modified = true
 		} else if !rw.orderedBy && rw.RewriteRand && strings.EqualFold(n.Name.Name, "random") {
 			retNode = &sql.NumberLit{Value: strconv.Itoa(int(rw.randFn()))}
 			rw.modified = true
